@@ -58,7 +58,10 @@ RULE_ADDED = (
               ' without a PIN in the options. '
               ' '
               'Round 18: the UI-exit exchange of the Ledger flow ends in a read error, a time-o'
-              'ut or a plain answer. ')
+              'ut or a plain answer. '
+              ' '
+              'Round 19: SGX envelopes in which only the size field of the QE certification dat'
+              'a is altered (lowered, raised, one bit flipped). ')
 RULE = RULE + " " + RULE_ADDED.strip()
 ASSUMPTIONS = [
     "the genuine-device models in pv/simdev/genuine.py (endorsement scheme two: signatures by "
@@ -78,7 +81,8 @@ LEDGER_ALTER = ["ui_message", "ui_signature", "ui_app_hash", "signer_message", "
                 "final-file", "pubkeys-file"]
 SGX_ALTER = ["env:quote", "env:quote-report-data", "env:signature", "env:att-key",
              "env:qe-report", "env:qe-report-data", "env:qe-signature", "env:auth-data",
-             "env:cert-der", "env:custom-message", "message", "root", "final-file",
+             "env:cert-der", "env:cert-data-size", "env:custom-message", "message", "root",
+             "final-file",
              "pubkeys-file", "root-signature", "root-signature"]
 
 
@@ -473,6 +477,28 @@ def sgx_run(acc, cseed, alter, tmpdir):
                 return flipper(rng, lo, hi)(env_bytes)
             if kind == "custom-message":
                 return flipper(rng, len(env_bytes) - 127)(env_bytes)
+            if kind == "cert-data-size":
+                # only the 32-bit size of the certification data says something else (less by
+                # up to the length of the last certificate, more by up to the length of the
+                # message behind, or with one bit flipped): what follows the certification
+                # data is then not the message
+                import struct
+                head = Q + 4 + 576 + 2 + auth_len + 6
+                tail = len(env_bytes) - 127
+                size = struct.unpack("<I", env_bytes[head - 4:head])[0]
+                assert size == tail - head, (size, tail - head)
+                last = len(env_bytes[head:tail].rstrip(b"\n").rsplit(
+                    b"-----BEGIN CERTIFICATE-----", 1)[-1])
+                k = rng.random()
+                if k < 0.5:
+                    new_size = size - rng.choice([1, 2, 5, 26, rng.randint(1, last),
+                                                  rng.randint(1, last + 27)])
+                elif k < 0.8:
+                    new_size = size + rng.choice([1, 2, 126, 127, rng.randint(1, 127)])
+                else:
+                    new_size = size ^ (1 << rng.randrange(32))
+                acc.count("envelopes_whose_certification_data_size_alone_was_altered")
+                return env_bytes[:head - 4] + struct.pack("<I", new_size) + env_bytes[head:]
             if kind == "cert-der":
                 # re-encode one certificate of the PEM chain with one DER bit flipped
                 head = Q + 4 + 576 + 2 + auth_len + 6
